@@ -108,6 +108,12 @@ def _value(r: _R, e: dict, octet_is_text_ok=True):
         raise ValueError(f"tag {tag}")
 
 
+def _expect(cond: bool) -> None:
+    """Not an assert statement: the reading inside the condition must happen under python -O as well."""
+    if not cond:
+        raise ValueError("captured message does not have the expected shape")
+
+
 def abstract_of(meter: str, b: bytes) -> dict:
     """Abstract form of a captured message, read with a reader that shares nothing with the repository's grammar."""
     r = _R(b)
@@ -126,12 +132,12 @@ def abstract_of(meter: str, b: bytes) -> dict:
             r.take(1)
             m["apdu"] = {"kind": "untagged", "dt": r.dt()}
     if meter == "aidon":
-        assert r.u8() == 1
+        _expect(r.u8() == 1)
         n = r.u8()
         for _ in range(n):
-            assert r.u8() == 2
+            _expect(r.u8() == 2)
             r.u8()
-            assert r.take(2) == b"\x09\x06"
+            _expect(r.take(2) == b"\x09\x06")
             e = el(obis=r.take(6))
             _value(r, e)
             if e["t"] in ("u32", "i16", "u16"):
@@ -140,7 +146,7 @@ def abstract_of(meter: str, b: bytes) -> dict:
                 e["unit"] = x[5]
             m["elems"].append(e)
     elif meter == "kaifa":
-        assert r.u8() == 2
+        _expect(r.u8() == 2)
         n = r.u8()
         if r.b[r.p:r.p + 2] == b"\x09\x06" and n % 2 == 0 and r.b[r.p + 8] in (6, 9) and n > 18:
             m["layout"] = "obis"
@@ -156,7 +162,7 @@ def abstract_of(meter: str, b: bytes) -> dict:
                 _value(r, e)
                 m["elems"].append(e)
     else:
-        assert r.u8() == 2
+        _expect(r.u8() == 2)
         m["count"] = r.u8()
         while r.p < len(b):
             e = el()
